@@ -159,6 +159,10 @@ def generate(rng: random.Random, tier: str) -> dict:
         if ny * nx > 160000:
             nx = rng.choice([16, 100, 257])
         ns = min(ns, 2)
+        if rng.random() < 0.3:
+            # very elongated: seven or more pyramid levels at little cost
+            ny, nx = rng.choice([(40, 1160), (1160, 17), (16, 3000), (1090, 33), (5, 2100)])
+            ns = min(ns, 2)
         if tier == "thorough" and rng.random() < 0.2:
             # one step up in scale: six pyramid levels with 32 px tiles, very elongated images
             ny, nx = rng.choice([(1025, 1025), (1024, 1030), (16, 3000), (3000, 17), (1025, 40)])
@@ -190,6 +194,15 @@ def generate(rng: random.Random, tier: str) -> dict:
     chy, chx = rng.choice(cs), rng.choice(cs)
     if big:
         chy, chx = rng.choice([64, 128, 200, 600]), rng.choice([64, 128, 200, 600])
+    irregular = None
+    if not big and rng.random() < 0.15 and ny >= 4 and nx >= 4:
+        # explicit irregular chunk tuples (what slicing a chunked array leaves behind), e.g. (10, 32, 32)
+        def split(n, c):
+            first = rng.randrange(1, min(c, n - 1) + 1)
+            rest = n - first
+            return [first] + [c] * (rest // c) + ([rest % c] if rest % c else [])
+
+        irregular = [split(ny, chy), split(nx, chx)]
     band_chunk = rng.choice(["one", "all"])
     sink = rng.choice(["file"] * 5 + ["s3"] * 2 + ["s3-cluster"] * 2)
     place = rng.choice(["default", "default", "base-exists", "base-nested", "xdev"]) if sink == "file" else None
@@ -213,6 +226,7 @@ def generate(rng: random.Random, tier: str) -> dict:
         "spill_sz": spill,
         "wpc": rng.choice(["default", 1, 2, 4]),
         "chunks": [chy, chx],
+        "irregular_chunks": irregular,
         "band_chunk": band_chunk,
         "sink": sink,
         "place": place,
@@ -334,6 +348,8 @@ def execute(record: dict, rng: Optional[random.Random]) -> Outcome:
         "s3_multiple_parts": 0,
         "multi_worker": 0,
         "padding_adds_whole_tiles": 0,
+        "irregular_source_chunks": 0,
+        "seven_or_more_levels": 0,
         "rgb_like_3_or_4_samples": 0,
         "syx_width_3_or_4": 0,
         "concurrent_writer_calls": 0,
@@ -366,6 +382,15 @@ def execute(record: dict, rng: Optional[random.Random]) -> Outcome:
                 chunks = (chy, chx, ns)  # the writer requires all samples of a pixel in one chunk for YXS
             else:
                 chunks = (ns if cfg["band_chunk"] == "all" else 1, chy, chx)
+            if cfg.get("irregular_chunks"):
+                iy, ix = (tuple(c) for c in cfg["irregular_chunks"])
+                if axis == "YX":
+                    chunks = (iy, ix)
+                elif axis == "YXS":
+                    chunks = (iy, ix, (ns,))
+                else:
+                    chunks = ((ns,) if cfg["band_chunk"] == "all" else (1,) * ns, iy, ix)
+                probes["irregular_source_chunks"] = 1
             # the graph gets its own copy: the reference pixels must stay out of reach of the code under test
             arr = da.from_array(data.copy(), chunks=chunks, name=f"pix-{cfg['uuid_seed']:032x}")
             if axis == "SYX":
@@ -604,6 +629,8 @@ def check_file(path: Path, data: np.ndarray, cfg: dict, aff: List[float], crs: s
         probes["levels_differ_from_reference_rule"] = 1
     if levels > 1:
         probes["multi_level_pyramid"] = 1
+    if levels >= 7:
+        probes["seven_or_more_levels"] = 1
     if levels > 0 and (H == pad or W == pad):
         probes["side_equals_pow2_levels"] = 1
     if nx < info[0]["tw"] or ny < info[0]["th"]:
@@ -771,6 +798,10 @@ def candidates(record: dict) -> Iterable[dict]:
                 c = copy.deepcopy(record)
                 c["workload"]["shape"][ax] = nv
                 yield c
+    if cfg.get("irregular_chunks"):
+        c = copy.deepcopy(record)
+        c["config"]["irregular_chunks"] = None
+        yield c
     for ax in range(2):
         if cfg["chunks"][ax] < 200:
             c = copy.deepcopy(record)
